@@ -363,6 +363,55 @@ fn map_noncontiguous() {
     core::mem::forget(before);
 }
 
+/// The degree / indegree / outdegree / semidegree sequences of an
+/// AdjacencyMap with vertex set within {0, 2, 3} follow vertices() (position,
+/// not id).
+fn map_noncontiguous_sequences() {
+    const IDS: [usize; 3] = [0, 2, 3];
+
+    cx::set_vcap(5);
+
+    let g = G::<3>::any();
+    let mut d = AdjacencyMap::empty(1);
+    let mut present = [false; 3];
+
+    present[0] = true;
+
+    for u in 0..3 {
+        for v in 0..3 {
+            if g.a[u][v] {
+                d.add_arc(IDS[u], IDS[v]);
+                present[u] = true;
+                present[v] = true;
+            }
+        }
+    }
+
+    {
+        let mut degs = d.degree_sequence();
+        let mut ins = d.indegree_sequence();
+        let mut outs = d.outdegree_sequence();
+        let mut semi = d.semidegree_sequence();
+
+        for u in 0..3 {
+            if present[u] {
+                assert!(degs.next() == Some(g.indeg(u) + g.outdeg(u)), "degree sequence in vertex order");
+                assert!(ins.next() == Some(g.indeg(u)), "indegree sequence in vertex order");
+                assert!(outs.next() == Some(g.outdeg(u)), "outdegree sequence in vertex order");
+                assert!(semi.next() == Some((g.indeg(u), g.outdeg(u))), "semidegree sequence in vertex order");
+            }
+        }
+
+        assert!(degs.next().is_none(), "degree sequence has one entry per vertex");
+        assert!(ins.next().is_none(), "indegree sequence has one entry per vertex");
+        assert!(outs.next().is_none(), "outdegree sequence has one entry per vertex");
+        assert!(semi.next().is_none(), "semidegree sequence has one entry per vertex");
+    }
+
+    kani::cover!(present[1] && !present[2], "vertex set {0, 2}");
+    core::mem::forget(d);
+}
+
 /// AdjacencyListWeighted<usize>: weighted neighbour queries.
 fn weighted<const N: usize>() {
     cx::set_vcap(N + 1);
@@ -508,6 +557,14 @@ pub fn c02_map_noncontiguous() {
     map_noncontiguous();
 }
 
+// Sequences of an AdjacencyMap on a vertex set within {0, 2, 3}.
+// @verif prop=C02 tier=quick fl=f1 feat=map4 role=noncontiguous-sequences/adjacency-map t=1500 mem=16
+#[cfg_attr(kani, kani::proof)]
+#[cfg_attr(kani, kani::unwind(8))]
+pub fn c02_map_noncontiguous_sequences() {
+    map_noncontiguous_sequences();
+}
+
 // @verif prop=C02 tier=quick fl=f1 feat=map4 role=inherent/weighted t=1500 mem=20
 #[cfg_attr(kani, kani::proof)]
 #[cfg_attr(kani, kani::unwind(10))]
@@ -552,7 +609,7 @@ pub fn c02_inherent_matrix_n4() {
 
 // @verif prop=C02 tier=thorough fl=f1 role=inherent/edge-list t=3600 mem=24
 #[cfg_attr(kani, kani::proof)]
-#[cfg_attr(kani, kani::unwind(8))]
+#[cfg_attr(kani, kani::unwind(15))]
 pub fn c02_inherent_edge_list_n4() {
     inherent::<EdgeList, 4>(1);
 }
